@@ -324,7 +324,14 @@ func c09Scenarios(tier string) []e1lib.Scenario {
 			}
 			if s.k == 2 {
 				for _, mode := range []string{"lift", "try"} {
-					add(forkh.Cfg{Stage: "map2", Par: s.par, Input: seq1(s.k), InCap: 0, Mode: mode, Mask: m << 1, Stop: -1, Stop2: -1, ErrRd: "reader"}, -1)
+					if s.par == 1 {
+						add(forkh.Cfg{Stage: "map2", Par: s.par, Input: seq1(s.k), InCap: 0, Mode: mode, Mask: m << 1, Stop: -1, Stop2: -1, ErrRd: "reader"}, -1)
+						continue
+					}
+					// two stages of two workers with their closers, producers and four consumers: up to two deviations
+					dev = true
+					add(forkh.Cfg{Stage: "map2", Par: s.par, Input: seq1(s.k), InCap: 0, Mode: mode, Mask: m << 1, Stop: -1, Stop2: -1, ErrRd: "reader"}, 2)
+					dev = false
 				}
 			}
 		}
